@@ -4,6 +4,7 @@ import YatimlModel.Gen.LoaderResolvers
 import YatimlModel.Gen.DumperResolvers
 import YatimlModel.Driver.JsonCmd
 import YatimlModel.Driver.NodeCmd
+import YatimlModel.Driver.LoadCmd
 /-!
 The model driver: one request per line on stdin, one answer per line on stdout.
 -/
@@ -15,6 +16,9 @@ def handleSexp (line : String) : String :=
   | some (.atom "jstep" :: args) => Driver.cmdJstep args
   | some (.atom "jstr" :: args) => Driver.cmdJstr args
   | some (.atom "nodeops" :: args) => Driver.cmdNodeOps args
+  | some (.atom "recognize" :: args) => Driver.cmdRecognize args
+  | some (.atom "process" :: args) => Driver.cmdProcess args
+  | some (.atom "load" :: args) => Driver.cmdLoad args
   | some _ => "bad-op"
   | none => "bad-syntax"
 
